@@ -12,6 +12,7 @@ model gets int(round((d/fs)*fs)) — the code's own expression.
 import copy
 import itertools
 import json
+import math
 
 import numpy as np
 
@@ -29,9 +30,9 @@ def make_source(st, key, fs):
     if st['src'] in ('arr', 'fixed'):
         w = np.arange(1, L + 1, dtype=np.float64) + (key + 1) * ENC
         if st['src'] == 'arr':
-            return w, L, int(round((L / fs) * fs)), w
+            return w, L, dur_grid(L / fs, fs), w
         g = stim.FixedWaveform(fs, w)
-        return g, int(g.n_samples()), int(round(g.get_duration() * fs)), w
+        return g, int(g.n_samples()), dur_grid(g.get_duration(), fs), w
     if st['src'] == 'cos2':
         from psiaudio.calibration import FlatCalibration
         cal = FlatCalibration.as_attenuation()
@@ -43,8 +44,20 @@ def make_source(st, key, fs):
         r.reset()
         n = int(r.n_samples())
         ref = r.next(n)
-        return g, n, int(round(g.get_duration() * fs)), ref
+        return g, n, dur_grid(g.get_duration(), fs), ref
     raise ValueError(st['src'])
+
+
+def dur_grid(duration, fs):
+    """Smallest integer d with duration*fs <= d (1e-6 sample slack for the float product):
+    for an integer sample distance n, `duration*fs > n` iff `d > n`."""
+    return int(math.ceil(duration * fs - 1e-6))
+
+
+def exact_dur(st):
+    """Exact duration of a stimulus in samples (a Fraction), independent of any float."""
+    from fractions import Fraction
+    return Fraction(st['len']) + (Fraction(str(st.get('frac', 0))) if st['src'] == 'cos2' else 0)
 
 
 def delay_samples(d, fs):
@@ -93,27 +106,43 @@ class Trace:
 
 
 def _decode(out, c0, tr, case, live):
-    """Map real samples back to cells. `live`: list of (key, k) of non-removed added trials, latest first."""
+    """Map real samples back to cells. Encoded arrays are read off the value; a Cos2Envelope sample is
+    looked up bit-exactly in the reference waveforms of the cos2 stimuli (preferring the continuation
+    of the previous cell, then the position implied by a notified live trial `live` = [(key, k)])."""
     cells = []
     stims = case['stims']
+    cos = [i for i, st in enumerate(stims) if st['src'] == 'cos2']
+    prev = None
     for i, v in enumerate(out):
         v = float(v)
         if v == 0.0:
             cells.append(('Z',))
+            prev = None
             continue
         kk = int(v // ENC) - 1
         jj = int(v % ENC) - 1
         if v == int(v) and 0 <= kk < len(stims) and stims[kk]['src'] in ('arr', 'fixed') \
                 and 0 <= jj < tr.lens[kk]:
             cells.append(('W', kk, jj))
+            prev = None
             continue
         p = c0 + i
         hit = None
-        for key, k in live:
-            if stims[key]['src'] == 'cos2' and k <= p < k + tr.lens[key] and tr.refs[key][p - k] == v:
-                hit = ('W', key, p - k)
-                break
+        if prev is not None and prev[2] + 1 < tr.lens[prev[1]] and tr.refs[prev[1]][prev[2] + 1] == v:
+            hit = ('W', prev[1], prev[2] + 1)
+        if hit is None:
+            for key, k in live:
+                if key in cos and k <= p < k + tr.lens[key] and tr.refs[key][p - k] == v:
+                    hit = ('W', key, p - k)
+                    break
+        if hit is None:
+            for key in cos:
+                js = np.flatnonzero(np.asarray(tr.refs[key]) == v)
+                if len(js):
+                    hit = ('W', key, int(js[0]))
+                    break
         cells.append(hit or ('X',))
+        prev = hit
     return cells
 
 
@@ -215,7 +244,7 @@ def _drive(case, q, tr, fs, t0):
         ongrid = (info['t0'] == t0 + k / fs)
         key = keys.index(info['key'])
         infos.append(info)
-        tr.added.append((key, k, int(round(info['duration'] * fs)), ongrid))
+        tr.added.append((key, k, dur_grid(info['duration'], fs), ongrid))
 
     def on_removed(info):
         uid = next((i for i, a in enumerate(infos) if a is info), -1)
